@@ -368,6 +368,9 @@ class AsyncFIXConnection:
                         self._msg_buffer = self._msg_buffer[parsed_length:]
 
                     if decoded_msg is None:
+                        if parsed_length > 0 and self._msg_buffer:
+                            # garbled frame was skipped, next one may be complete
+                            continue
                         break
 
                     try:
